@@ -664,6 +664,13 @@ func consumeIndex(x anyIndex) {
 		x.query(i, 1<<14-1, 1<<14+1)
 		x.query(i, 1<<28, 1<<29-2)
 	}
+	if n > 0 {
+		// empty and reversed intervals: nothing overlaps them, the call returns
+		x.query(0, 0, 0)
+		x.query(0, 7, 7)
+		x.query(0, 100, 3)
+		x.query(0, -5, 2)
+	}
 	if _, isBai := x.(*baiIdx); !isBai && n < 60 {
 		x.query(n, 0, 10) // a reference beyond the last
 	}
@@ -786,7 +793,9 @@ func c11Decode(e string, in []byte, variant int) (reads int, over bool) {
 		}
 	case "bai":
 		st := newStep(in)
-		if idx, err := bam.ReadIndex(st); err == nil && idx != nil {
+		if idx, err := bam.ReadIndex(st); err == nil {
+			// (whatever came back without an error goes to the accessors,
+			// also a nil index)
 			n := idx.NumRefs()
 			if n > 64 {
 				n = 64
@@ -796,13 +805,13 @@ func c11Decode(e string, in []byte, variant int) (reads int, over bool) {
 		return st.n, st.over
 	case "csi":
 		st := newStep(in)
-		if idx, err := csi.ReadFrom(st); err == nil && idx != nil {
+		if idx, err := csi.ReadFrom(st); err == nil {
 			consumeIndex(&csiIdx{idx: idx})
 		}
 		return st.n, st.over
 	case "tabix":
 		st := newStep(in)
-		if idx, err := tabix.ReadFrom(st); err == nil && idx != nil {
+		if idx, err := tabix.ReadFrom(st); err == nil {
 			names := append([]string(nil), idx.Names()...)
 			for len(names) < 66 {
 				names = append(names, "none")
@@ -970,6 +979,15 @@ func c11Run(c core.Case) *core.Result {
 			if b := c11Index(rng, e); b != nil {
 				valid = append(valid, b)
 			}
+		}
+		// an index of no references at all
+		switch e {
+		case "bai":
+			valid = append(valid, []byte("BAI\x01\x00\x00\x00\x00"), []byte("BAI\x01\x00\x00\x00\x00\x05\x00\x00\x00\x00\x00\x00\x00"))
+		case "tabix":
+			valid = append(valid, append([]byte("TBI\x01\x00\x00\x00\x00"), make([]byte, 28)...))
+		case "csi":
+			valid = append(valid, []byte("CSI\x01\x0e\x00\x00\x00\x05\x00\x00\x00\x00\x00\x00\x00\x00\x00\x00\x00"))
 		}
 	case "fai-read":
 		text = true
